@@ -183,7 +183,8 @@ func hookPassesCommitError(f *ssa.Function, commit ssa.CallInstruction) (bool, s
 
 // boundTarget: w is the synthetic bound-method wrapper of a method; returns that method.
 func boundTarget(w *ssa.Function) *ssa.Function {
-	if w == nil || !strings.HasPrefix(w.Synthetic, "bound method wrapper") {
+	// (a method value `x.m` is a closure over a bound-method wrapper; a method expression `(*T).m` used as a value is a thunk)
+	if w == nil || !(strings.HasPrefix(w.Synthetic, "bound method wrapper") || strings.HasPrefix(w.Synthetic, "thunk")) {
 		return nil
 	}
 	for _, b := range w.Blocks {
